@@ -27,6 +27,8 @@ from collada.common import DaeObject, E, tag
 from collada.common import DaeIncompleteError, DaeBrokenRefError, \
     DaeMalformedError, DaeUnsupportedError
 from collada.util import falmostEqual
+from collada.util import _correctValInNode
+from collada.util import _syncChildren
 
 try:
     from PIL import Image as pil
@@ -336,12 +338,8 @@ class Sampler2D(DaeObject):
         """Saves the sampler data back to :attr:`xmlnode`"""
         samplernode = self.xmlnode.find(tag('sampler2D'))
         sourcenode = samplernode.find(tag('source'))
-        if self.minfilter:
-            minnode = samplernode.find(tag('minfilter'))
-            minnode.text = self.minfilter
-        if self.magfilter:
-            maxnode = samplernode.find(tag('magfilter'))
-            maxnode.text = self.magfilter
+        _correctValInNode(samplernode, 'minfilter', self.minfilter or None)
+        _correctValInNode(samplernode, 'magfilter', self.magfilter or None)
         sourcenode.text = self.surface.id
         self.xmlnode.set('sid', self.id)
 
@@ -734,16 +732,9 @@ class Effect(DaeObject):
 
         for param in self.params:
             param.save()
-            if param.xmlnode not in profilenode:
-                profilenode.insert(list(profilenode).index(tecnode),
-                                   param.xmlnode)
-
-        deletenodes = []
-        for oldparam in profilenode.findall(tag('newparam')):
-            if oldparam not in [param.xmlnode for param in self.params]:
-                deletenodes.append(oldparam)
-        for d in deletenodes:
-            profilenode.remove(d)
+        _syncChildren(tecnode, [], lambda child: child.tag == tag('newparam'))
+        _syncChildren(profilenode, [param.xmlnode for param in self.params],
+                      lambda child: child.tag == tag('newparam'), before=tecnode)
 
         for shader in self.shaders:
             shadnode = tecnode.find(tag(shader))
@@ -755,6 +746,7 @@ class Effect(DaeObject):
             if prop == 'transparent' and self.opaque_mode == OPAQUE_MODE.RGB_ZERO:
                 propnode.set('opaque', OPAQUE_MODE.RGB_ZERO)
             if isinstance(value, Map):
+                value.save()
                 propnode.append(copy.deepcopy(value.xmlnode))
             elif isinstance(value, float):
                 propnode.append(E.float(str(value)))
